@@ -146,7 +146,7 @@ pub struct RouteGraphNode { pub node_counter: u32, pub score: u128, pub total_cl
 //@slice R15
     if !old_entry.was_processed && new_cost < old_cost { $upd:straight } else if old_entry.was_processed && new_cost < old_cost {
 //@with
-    fn record_the_cheaper_way_to_reach_the_node(old_entry: &mut PathBuildingHop, targets: &mut Vec<RouteGraphNode>, m_candidate: &CandidateId, new_cost: u128, old_cost: u128, src_node_counter: u32, hop_total_cltv_delta: u32,
+    fn record_the_cheaper_way_to_reach_the_node(old_entry: &mut PathBuildingHop, targets: &mut Vec<RouteGraphNode>, m_candidate: &CandidateId, new_cost: u128, old_cost: u128, src_node_counter: u32, hop_total_cltv_delta: u32, cltv_expiry_delta: u32,
         value_contribution_msat: u64, path_length_to_node: u8, m_next_hops_fee_msat: u64, hop_use_fee_msat: u64, total_fee_msat: u64, path_htlc_minimum_msat: u64, path_penalty_msat: u64) -> Option<u64> {
         let mut hop_contribution_amt_msat = None;
         if !old_entry.was_processed && new_cost < old_cost { $upd }
@@ -158,6 +158,10 @@ pub struct RouteGraphNode { pub node_counter: u32, pub score: u128, pub total_cl
         && *final(old_entry) == (PathBuildingHop { candidate: *m_candidate, fee_msat: 0, next_hops_fee_msat: m_next_hops_fee_msat, hop_use_fee_msat, total_fee_msat, path_htlc_minimum_msat, path_penalty_msat,
                                                   was_processed: old(old_entry).was_processed, value_contribution_msat })
         && final(targets)@ == old(targets)@.push(RouteGraphNode { node_counter: src_node_counter, score: new_cost, total_cltv_delta: hop_total_cltv_delta as u16, value_contribution_msat, path_length_to_node }),
+//@mutant heap_entry_carries_this_hops_delta_instead_of_the_total
+    total_cltv_delta: hop_total_cltv_delta as u16,
+//@with
+    total_cltv_delta: cltv_expiry_delta as u16,
 //@mutant this_hops_fee_recorded_as_the_fee_of_the_later_hops
     old_entry.next_hops_fee_msat = m_next_hops_fee_msat;
 //@with
